@@ -22,7 +22,10 @@ def main():
     try:
         run.proof()
         import checks
-        checks.CHECKS[prop](run)
+        import checks_a
+        table = dict(checks.CHECKS)
+        table.update(checks_a.CHECKS)
+        table[prop](run)
     except Exception:
         run.proof_failures.append("check machinery failed: " + traceback.format_exc()[-1500:])
     return run.finish(**getattr(run, "finish_args", {}))
